@@ -50,10 +50,11 @@ func generate(r *prng.R, o *hx.Out) *scenario {
 	if sc.malformed {
 		o.Count("case:malformed")
 	}
+	sc.noSubs = r.Chance(1, 8)
 	ntx := r.Range(3, 12)
 	nSenders := r.Range(1, 3)
-	notaryShare := []int{0, 2, 5, 8}[r.Intn(4)] // out of 10
-	oracleShare := []int{0, 2, 2, 6}[r.Intn(4)] // out of 12
+	notaryShare := []int{0, 2, 5, 8}[r.Intn(4)]   // out of 10
+	oracleShare := []int{0, 2, 2, 6}[r.Intn(4)]   // out of 12
 	conflictShare := []int{1, 4, 4, 7}[r.Intn(4)] // out of 10
 	// a few fee levels per case so that equal priorities and near-ties are frequent
 	fpbLevels := []int64{int64(r.Intn(4)), int64(r.Intn(6)), int64(r.Range(1, 8))}
@@ -139,7 +140,11 @@ func generate(r *prng.R, o *hx.Out) *scenario {
 				i = r.Intn(ntx)
 			}
 			pooledGuess[i] = true
-			sc.ops = append(sc.ops, op{kind: opAdd, i: i})
+			data := r.Range(1, 99)
+			if r.Chance(1, 8) {
+				data = 0 // Add without a data argument
+			}
+			sc.ops = append(sc.ops, op{kind: opAdd, i: i, data: data})
 		case 1:
 			i := r.Intn(ntx)
 			delete(pooledGuess, i)
@@ -186,6 +191,45 @@ func generate(r *prng.R, o *hx.Out) *scenario {
 			}
 			sc.ops = append(sc.ops, op{kind: opBal, pk: pk, amt: amt})
 		}
+	}
+	if !sc.noSubs && r.Chance(1, 20) {
+		// StopSubscriptions somewhere in the middle: no events from then on
+		at := 2 + r.Intn(len(sc.ops)-2)
+		sc.ops = append(sc.ops[:at:at], append([]op{{kind: opSubsOff}}, sc.ops[at:]...)...)
+	}
+	if r.Chance(1, 8) {
+		// a phase of concurrent calls: after a refresh (every cached balance is the Feer's), balances unchanged
+		// during the phase, a refresh afterwards (the balance cache is rebuilt)
+		o.Count("case:concurrent")
+		clients := r.Range(2, 4)
+		progs := make([][]op, clients)
+		for c := range progs {
+			for j, n := 0, r.Range(2, 6); j < n; j++ {
+				switch r.Weighted([]int{60, 14, 16, 10}) {
+				case 0:
+					progs[c] = append(progs[c], op{kind: opAdd, i: r.Intn(ntx), data: r.Range(1, 99)})
+				case 1:
+					progs[c] = append(progs[c], op{kind: opRemove, i: r.Intn(ntx)})
+				case 2:
+					progs[c] = append(progs[c], op{kind: opVerify, i: r.Intn(ntx)})
+				case 3:
+					st := op{kind: opStale}
+					if r.Chance(1, 3) {
+						st.fpb = int64(r.Intn(6))
+					}
+					if r.Chance(1, 2) {
+						st.drops = pickDistinct(r, r.Range(1, 2), ntx)
+					}
+					progs[c] = append(progs[c], st)
+				}
+			}
+		}
+		phase := []op{{kind: opStale}, {kind: opConc, conc: progs}, {kind: opStale}}
+		at := 2 + r.Intn(len(sc.ops)-1)
+		if at > len(sc.ops) {
+			at = len(sc.ops)
+		}
+		sc.ops = append(sc.ops[:at:at], append(phase, sc.ops[at:]...)...)
 	}
 	o.Count(fmt.Sprintf("case:cap=%d", sc.cap))
 	return sc
